@@ -11,13 +11,24 @@ IT = r'as (?:Iterator|DoubleEndedIterator|ExactSizeIterator)>::'
 
 
 def it_of(v):
+    orig = v
     v = un(v)
     if isinstance(v, PyIter): return v
+    if isinstance(v, Struct) and v.name in ('Range', 'RangeInclusive', 'RangeFrom') and _ENGINE[0] is not None:
+        it = into_iter(_ENGINE[0], v)
+        c = orig
+        while isinstance(c, Ref) and isinstance(c.cell.v, Ref): c = c.cell.v
+        if isinstance(c, Ref): c.cell.v = it          # a range used as a stateful iterator (next(&mut range))
+        return it
     if isinstance(v, Struct) and len(v.f) >= 1 and isinstance(un(v.f[0].v), PyIter): return un(v.f[0].v)
     raise Unmodelled('not an iterator: %r' % (v,))
 
 
+_ENGINE = [None]
+
+
 def into_iter(e, v, byref=None):
+    _ENGINE[0] = e
     """IntoIterator::into_iter on a value"""
     isref = isinstance(v, (Ref, SliceRef)) if byref is None else byref
     u = un(v)
